@@ -38,6 +38,7 @@ def _java(scratch, heap="6g", extra=(), gc=("-XX:+UseParallelGC",)):
 
 
 _STATS = re.compile(r"(\d[\d,]*) states generated, (\d[\d,]*) distinct states found")
+_PROGRESS = re.compile(r"Progress\((\d+)\) at [^:]*:[^:]*:[^:]*: (\d[\d,]*) states generated.*?, (\d[\d,]*) distinct states found")
 _DEPTH = re.compile(r"depth of the complete state graph search is (\d+)")
 
 
@@ -49,6 +50,13 @@ def parse_stats(out):
     if m:
         st["generated"] = int(m.group(1).replace(",", ""))
         st["distinct"] = int(m.group(2).replace(",", ""))
+    else:
+        for m in _PROGRESS.finditer(out):       # an interrupted run: the last progress line
+            pass
+        if m:
+            st["generated"] = int(m.group(2).replace(",", ""))
+            st["distinct"] = int(m.group(3).replace(",", ""))
+            st["depth"] = int(m.group(1))
     d = _DEPTH.search(out)
     if d:
         st["depth"] = int(d.group(1))
@@ -63,10 +71,18 @@ def run_tlc(module, cfg, scratch, workers=16, env=None, extra_args=(), timeout=3
     e = dict(os.environ)
     e.update(env or {})
     t0 = time.time()
-    p = subprocess.run(cmd, cwd=cwd, env=e, stdout=subprocess.PIPE, stderr=subprocess.STDOUT,
-                       timeout=timeout, text=True)
+    p = subprocess.Popen(cmd, cwd=cwd, env=e, stdout=subprocess.PIPE, stderr=subprocess.STDOUT, text=True)
+    timed_out = False
+    try:
+        out, _ = p.communicate(timeout=timeout)
+    except subprocess.TimeoutExpired:
+        # out of time: what TLC explored so far still counts (its progress lines carry the numbers)
+        timed_out = True
+        p.kill()
+        out, _ = p.communicate()
     shutil.rmtree(md, ignore_errors=True)
-    return {"rc": p.returncode, "out": p.stdout, "wall": time.time() - t0, "cmd": " ".join(cmd)}
+    return {"rc": p.returncode, "out": out or "", "wall": time.time() - t0, "cmd": " ".join(cmd),
+            "timed_out": timed_out}
 
 
 # ---------------------------------------------------------------------------------------------
